@@ -98,6 +98,16 @@ def check_case(ip, c):
                     bad.append(("%s:stack-vs-frame%s" % (name, tag),
                                 dict(frame=i, stack=vs[:, i].tolist(), single=f(fr).tolist())))
                     break
+        # integer-typed images (detector counts): the same answers as the same image in floating point
+        if not bad:
+            ii = np.array(c["img"], dtype=np.int64)
+            for fac in (1, 3):
+                vi = f(fac * ii)
+                if not _same(vi, v):
+                    bad.append(("%s:integer-image%s" % (name, tag), dict(factor=fac, integer=vi.tolist(), float=v.tolist())))
+                    break
+            if not bad and not _same(f(np.array([ii, 2 * ii[::-1, ::-1]]))[:, 0], v):
+                bad.append(("%s:integer-image:stack-vs-frame%s" % (name, tag), dict(float=v.tolist())))
         if not bad and not _same(v, impl):
             drift.append(("%s:value%s" % (name, tag), dict(got=v.tolist(), model=impl.tolist())))
     elif k == "corr":
